@@ -344,6 +344,17 @@ def run_impl(script, timeout_s=10):
                     outs.append(impl_collect(lambda: slots[cmd[1]].nextn(cmd[2])))
                 elif cmd[0] == "all":
                     outs.append(impl_collect(lambda: slots[cmd[1]].all(cmd[2])))
+                elif cmd[0] == "for":
+                    # a for-loop from the pattern's current position, left with `break` after cmd[2] values (or at the end)
+                    def _loop(p=slots[cmd[1]], bound=cmd[2]):
+                        vals = []
+                        if bound > 0:
+                            for v in p:
+                                vals.append(v)
+                                if len(vals) >= bound:
+                                    break
+                        return vals
+                    outs.append(impl_collect(_loop))
                 elif cmd[0] == "len":
                     p = slots[cmd[1]]
                     try:
@@ -396,6 +407,8 @@ def model_lines(script):
             lines.append("def %s %s" % (cmd[1], ser(cmd[2])))
         elif cmd[0] in ("next", "nextn", "all", "len"):
             lines.append("%s %s %d" % cmd)
+        elif cmd[0] == "for":
+            lines.append("nextn %s %d" % (cmd[1], cmd[2]))       # "a for-loop [delivers] the same values"
         elif cmd[0] == "reset":
             lines.append("reset %s" % cmd[1])
         elif cmd[0] == "copy":
